@@ -11,6 +11,12 @@ has_eff.contract_only = True
 stmt_eff = copy.copy([it for it in DCEFX.items if isinstance(it, Fn) and it.name == "stmt_has_side_effects"][0])
 stmt_eff.contract_only = True
 
+def kw_matches(mt):
+    """`matches!(s.as_str(), "a" | "b" | ..)` -> `str_eq(s.as_str(), "a") || ..` (the meaning of a string-literal or-pattern)"""
+    lits = re.findall(r'"([^"]*)"', mt.group(2))
+    return "(" + " || ".join(f'str_eq({mt.group(1)}.as_str(), "{l}")' for l in lits) + ")"
+
+
 def bind_filter(mt):
     """`let bind = bind.filter(|bname| { COND });` (Option::filter: keeps the value iff COND) -> `let bind = match bind { Some(bname) => { if COND { Some(bname) } else { None } } None => None };` (COND reads bname by reference)"""
     cond = re.sub(r"\bcontains\(bname\)", "contains(&bname)", mt.group(1).strip())
@@ -51,8 +57,9 @@ def loop_inv(k, header, kw):
 
 UNIT = Unit(
     name="U-DCEBLK",
-    properties=["C09"],
+    properties=["C09", "C02"],
     rules=[("strip", "ast::"), "opt_map", "let_chain_rev", "opt_is_some_and", "iter_any"],
+    clause_scope={"C02": {"only": ["go_expr_stmt_ok", "stmt_callee_ok"]}, "C09": {"except": ["go_expr_stmt_ok", "stmt_callee_ok"]}},
     describe="go::dce::dce_block_with_live (statement-level dead-code elimination, all statement kinds, nested blocks) and effect_stmt: the "
              "output block is, in order, the image of each input statement — the statement itself with DCE applied inside it, or, for a "
              "declaration / assignment whose variable is not needed, just the evaluation of its right-hand side, or nothing at all ONLY IF "
@@ -68,8 +75,12 @@ UNIT = Unit(
         Raw(path="contracts/dceblk.spec.rs"),
         has_eff,
         stmt_eff,
+        Fn(file=G + "dce.rs", name="call_allowed_as_stmt", ret="r", optional=True,
+           pre_rewrites=[(re.compile(r"matches!\(\s*(\w+)\.as_str\(\),\s*((?:\"[^\"]*\"\s*\|?\s*)+)\)", re.S), kw_matches, 1)],
+           obligation="false exactly for a callee variable named like a value-only Go builtin or a conversion", contract="ensures r == stmt_callee_ok(*func),"),
         Fn(file=G + "dce.rs", name="effect_stmt", ret="r", rewrites=[('"_".to_string()', "underscore()")],
-           contract="ensures eff_stmt_ok(v, r),", obligation="the replacement statement evaluates exactly v"),
+           contract="ensures eff_stmt_ok(v, r), go_expr_stmt_ok(r),",
+           obligation="the replacement statement evaluates exactly v — and is a statement Go accepts: a call stands alone only if Go allows that callee as a statement"),
         Fn(file=G + "dce.rs", name="dce_block_with_live", ret="r", attrs="#[verifier::loop_isolation(false)]\n#[verifier::rlimit(60)]",
            pre_rewrites=PRE, rewrites=RW,
            obligation="every input statement is kept (DCE'd inside), reduced to the evaluation of its right-hand side, or — only if "
